@@ -525,6 +525,17 @@ fn migrate_case(ctx: &Ctx, rep: &mut Report, case_seed: u64, variant: u64, grid_
 	let mut to = Options::with_columns(&to_path, p.dst.len() as u8);
 	to.columns = p.dst.clone();
 	to.compression_threshold = src.thresholds.clone();
+	if (p.grid + p.force.len() + p.overwrite as usize) % 3 == 1 {
+		// destination options that carry a salt of their own: the keys are re-committed in their
+		// hashed form, so the result must still answer every key of the source
+		let h = pv::dbutil::fnv(desc.as_bytes());
+		let mut salt = [0u8; 32];
+		for (i, b) in salt.iter_mut().enumerate() {
+			*b = (h >> ((i % 8) * 8)) as u8 ^ i as u8;
+		}
+		to.salt = Some(salt);
+		rep.count("destination_options_with_own_salt", 1);
+	}
 	let r = catch(|| migrate(&from, to.clone(), p.overwrite, &p.force));
 	rep.evaluations += 1;
 	match r {
@@ -803,11 +814,13 @@ pub fn run(ctx: &Ctx, rep: &mut Report) {
 	let mut seeder = Rng::new(ctx.seed ^ 0xC20_C20);
 	let mut i = 0u64;
 	let mut grid_seen = BTreeSet::new();
-	while i < n_cases && ctx.time_left() {
+	let own: Vec<u64> = (0..81u64).filter(|g| *g as usize % ctx.nshards == ctx.shard).collect();
+	// the shard's own grid cells are enumerated whatever the time budget says (a loaded machine
+	// must not turn the exhaustive part into an inconclusive run; the watchdog still applies)
+	while i < n_cases && (ctx.time_left() || (i as usize) < own.len() * 4) {
 		let case_seed = seeder.next() >> 2;
 		// variant = grid cell (0..81) + 81 * (forced + 2 * overwrite): first this shard's own
 		// cells in all four modes, then random ones
-		let own: Vec<u64> = (0..81u64).filter(|g| *g as usize % ctx.nshards == ctx.shard).collect();
 		let variant = if (i as usize) < own.len() * 4 {
 			own[i as usize / 4] + 81 * (i % 4)
 		} else {
